@@ -4,6 +4,8 @@ import BqVerif.Proofs.GatesQudit
 import BqVerif.Proofs.GatesEmbed
 import BqVerif.Proofs.GatesGeneral
 import BqVerif.Proofs.GatesLevels
+import BqVerif.Proofs.GatesMux
+import BqVerif.Proofs.GatesMuxGrad
 import BqVerif.Proofs.GatesWitness
 import BqVerif.Model.GateShapeTable
 import BqVerif.Generated.GateShapes
@@ -423,6 +425,63 @@ example : ∃ ε : ZMod 4, ε ≠ 0 ∧ ε * ε = 0 := ⟨2, by decide, by decid
 
 -- END GENERATED FAMILIES
 
+
+/-! ## Gates with a variable number of parameters -/
+
+/-- `DiagonalGate(n)`: unitary at every size for every real parameter vector -/
+theorem C18_unitary_diagGate (K : Consts R) (hK : K.Valid) (N : Nat) (ps : List (Ang R))
+    (hps : ∀ a ∈ ps, a.Valid) : IsUnitary N (diagGate K ps) := unitary_diagGate K hK N ps hps
+example : ∃ (K : Consts ℂ) (ps : List (Ang ℂ)), K.Valid ∧ ps ≠ [] ∧ ∀ a ∈ ps, a.Valid :=
+  ⟨K0, [a0, a0, a0], K0_valid, by simp, by simp [a0_valid]⟩
+
+theorem C18_grad_diagGate {S : Type} [CommRing S] (K : Consts S) (ps : List (Ang S)) (k : Nat)
+    (hk : k < ps.length) (ε : S) :
+    ∀ i j, diagGate K (ps.set k ((ps.getD k Ang.zero).shift 1 ε)) i j =
+      diagGate K ps i j + ε * diagGate_g K ps k i j := grad_diagGate K ps k hk ε
+example : ∃ (ps : List (Ang ℂ)) (k : Nat), k < ps.length := ⟨[a0, a0], 1, by simp⟩
+
+/-- `ArbitraryCPhaseGate(radixes)` (the matrix; its `get_unitary` drops the radixes: finding 1) -/
+theorem C18_unitary_acphase (K : Consts R) (hK : K.Valid) (N D : Nat) (t : Ang R) (ht : t.Valid) :
+    IsUnitary N (acphase K D t) := unitary_acphase K hK N D t ht
+example : ∃ (K : Consts ℂ) (t : Ang ℂ), K.Valid ∧ t.Valid := ⟨K0, a0, K0_valid, a0_valid⟩
+
+theorem C18_grad_acphase {S : Type} [CommRing S] (K : Consts S) (D : Nat) (t : Ang S) (ε : S) :
+    ∀ i j, acphase K D (t.shift 1 ε) i j = acphase K D t i j + ε * acphase_g K D t i j :=
+  grad_acphase K D t ε
+
+/-- `MPRYGate(n, target)` for the `(n, target)` of the sweep: every select value carries an
+`RY` block (index bijection checked by `decide`) -/
+theorem C18_unitary_mpry (c : Nat × Nat) (hc : c ∈ muxCases) (ps : List (Ang R))
+    (hps : ∀ a ∈ ps, a.Valid) : IsUnitary (2 * pow2 (c.1 - 1)) (mpry c.1 c.2 ps) :=
+  unitary_mpry c hc ps hps
+example : (3, 1) ∈ muxCases := by decide
+
+/-- `MPRZGate(n, target)` -/
+theorem C18_unitary_mprz (K : Consts R) (hK : K.Valid) (c : Nat × Nat) (hc : c ∈ muxCases)
+    (ps : List (Ang R)) (hps : ∀ a ∈ ps, a.Valid) :
+    IsUnitary (2 * pow2 (c.1 - 1)) (mprz K c.1 c.2 ps) := unitary_mprz K hK c hc ps hps
+example : (2, 0) ∈ muxCases ∧ ∃ K : Consts ℂ, K.Valid := ⟨by decide, K0, K0_valid⟩
+
+theorem C18_grad_mpry {S : Type} [CommRing S] (K : Consts S) (n t : Nat) (ps : List (Ang S))
+    (k : Nat) (hk : k < ps.length) (ε : S) :
+    ∀ r c, mpry n t (ps.set k ((ps.getD k Ang.zero).shift K.h ε)) r c =
+      mpry n t ps r c + ε * mpry_g K n t ps k r c := grad_mpry K n t ps k hk ε
+example : ∃ (ps : List (Ang ℂ)) (k : Nat), k < ps.length := ⟨[a0, a0], 1, by simp⟩
+
+theorem C18_grad_mprz {S : Type} [CommRing S] (K : Consts S) (n t : Nat) (ps : List (Ang S))
+    (k : Nat) (hk : k < ps.length) (ε : S) :
+    ∀ r c, mprz K n t (ps.set k ((ps.getD k Ang.zero).shift K.h ε)) r c =
+      mprz K n t ps r c + ε * mprz_g K n t ps k r c := grad_mprz K n t ps k hk ε
+example : ∃ (ps : List (Ang ℂ)) (k : Nat), k < ps.length := ⟨[a0, a0], 0, by simp⟩
+
+/-- `RSU3Gate(index)`, `index ≤ 6` (`index = 7` involves `θ/√3`: validated numerically) -/
+theorem C18_unitary_rsu3 (K : Consts R) (hK : K.Valid) (index : Nat) (hi : index ≤ 6) (t : Ang R)
+    (ht : t.Valid) : IsUnitary 3 (rsu3 K index t) := unitary_rsu3 K hK index hi t ht
+example : ∃ (K : Consts ℂ) (t : Ang ℂ), K.Valid ∧ t.Valid := ⟨K0, a0, K0_valid, a0_valid⟩
+
+theorem C18_grad_rsu3 {S : Type} [CommRing S] (K : Consts S) (index : Nat) (t : Ang S) (ε : S) :
+    toM 3 (rsu3 K index (t.shift 1 ε)) = toM 3 (rsu3 K index t) + ε • toM 3 (rsu3_g K index t) :=
+  grad_rsu3 K index t ε
 
 /-! ## Qudit gates -/
 
